@@ -53,6 +53,12 @@ Theorem C09_decode_member : forall R lg pw d zs,
 Proof. exact inv_cell_member. Qed.
 Print Assumptions C09_decode_member.
 
+Theorem C09_decode_row_member : forall R lg pw sp zs,
+  wf_space sp = true -> forallb (fun d => negb (is_cat_identity d)) sp = true ->
+  in_space sp (inverse_row R lg pw sp zs) = true.
+Proof. exact inverse_row_member. Qed.
+Print Assumptions C09_decode_row_member.
+
 (* TODAY's Real.inverse_transform (no clip) - F02: an admissible rounding takes a point of the space outside *)
 Theorem C09_real_member_refuted :
   exists R d x, admissible R /\ wf_dim d = true /\ in_dim d x = true /\
